@@ -6,7 +6,46 @@ from fractions import Fraction as F
 from .rgen import num_text
 
 
+def fixed_sv_program(rng):
+    """facts with constant start / end / duration (a free, never constrained parameter `a` in half of them) on fixed state
+    variables: nothing can be repaired, so overlapping ones make the problem unsolvable - whatever is reported as a solution is
+    judged by the overlap oracle"""
+    n_inst = rng.randint(1, 2)
+    lines = ["class SV : StateVariable {", "  predicate P0(real a) { }", "}"] + [f"SV s{i} = new SV();" for i in range(n_inst)]
+    ivs = []
+    t = 0
+    for i in range(rng.randint(2, 4)):
+        st = t + rng.choice([0, 0, 3, 5, 10])
+        en = st + 10
+        t = st if rng.random() < 0.4 else en          # 40%: the next one may start inside this one
+        a = "" if rng.random() < 0.5 else f"a: {num_text(F(rng.randint(0, 3)))}, "
+        inst = rng.randrange(n_inst)
+        ivs.append((inst, st, en))
+        lines.append(f"fact f{i} = new s{inst}.P0({a}start: {num_text(F(st))}, end: {num_text(F(en))}, duration: 10.0);")
+    feasible = not any(x[0] == y[0] and x[1] < y[2] and y[1] < x[2] for k, x in enumerate(ivs) for y in ivs[k + 1:])
+    return "\n".join(lines) + "\n", {"kind": "sv", "sv_names": [f"s{i}" for i in range(n_inst)], "atoms": [], "feasible": feasible}
+
+
+def fixed_rr_program(rng):
+    """the same for reusable resources: constant uses on fixed resources, possibly above the capacity"""
+    c = F(rng.choice([2, 3, 5]))
+    lines = [f"ReusableResource r0 = new ReusableResource({num_text(c)});"]
+    uses = []
+    t = 0
+    for i in range(rng.randint(2, 4)):
+        st = t + rng.choice([0, 0, 3, 5, 10])
+        en = st + 10
+        t = st if rng.random() < 0.5 else en
+        am = rng.choice([c, c / 2, c / 2 + F(1, 2), F(1)])
+        uses.append((st, en, am))
+        lines.append(f"fact u{i} = new r0.Use(start: {num_text(F(st))}, end: {num_text(F(en))}, duration: 10.0, amount: {num_text(am)});")
+    feasible = all(sum(a for (s_, e_, a) in uses if s_ <= p < e_) <= c for (p, _, _) in uses)
+    return "\n".join(lines) + "\n", {"kind": "rr", "caps": {"r0": c}, "atoms": [], "feasible": feasible}
+
+
 def sv_program(rng):
+    if rng.random() < 0.12:
+        return fixed_sv_program(rng)
     n_inst = rng.randint(1, 3)
     n_pred = rng.randint(1, 3)
     lines = ["class SV : StateVariable {"]
@@ -77,8 +116,9 @@ def sv_program(rng):
         k = rng.randrange(n_pred)
         base = 300 + 40 * rng.randint(0, 2)
         lines.insert(0, "predicate Qz() {}")
-        lines.append("{ " + f"goal za = new {s_}.P{k}(a: 1.0, start: {num_text(base)}, end: {num_text(base + 10)}, duration: 10.0); "
-                     + f"goal zb = new {s_}.P{rng.randrange(n_pred)}(a: 2.0, start: {num_text(base + 5)}, end: {num_text(base + 15)}, duration: 10.0);"
+        pa, pb = ("a: 1.0, ", "a: 2.0, ") if rng.random() < 0.5 else ("", "")          # or: the parameter stays free
+        lines.append("{ " + f"goal za = new {s_}.P{k}({pa}start: {num_text(base)}, end: {num_text(base + 10)}, duration: 10.0); "
+                     + f"goal zb = new {s_}.P{rng.randrange(n_pred)}({pb}start: {num_text(base + 5)}, end: {num_text(base + 15)}, duration: 10.0);"
                      + " } or { goal zq = new Qz(); } [10.0]")
     # some relative orderings consistent with the plant
     for _ in range(rng.randint(0, 3)):
@@ -97,6 +137,8 @@ def sv_program(rng):
 
 
 def rr_program(rng):
+    if rng.random() < 0.12:
+        return fixed_rr_program(rng)
     n_res = rng.randint(1, 2)
     lines = []
     caps = {}
